@@ -21,9 +21,6 @@ theorem run_fsGetPerms_file {p : Bytes} {s : DState} {b m} (h : s.fs.stat (absPa
     run (fsGetPerms p) s = (.ok (some m), s) := by
   rw [run_fsGetPerms, h]
 
-theorem run_opChmod (p : Bytes) (m : Nat) (s : DState) : run (opChmod p m) s = run (doOp (.chmod (absPath s p) m)) s := by
-  unfold opChmod; rw [run_bind_ok (run_get s)]
-
 theorem run_opCreat (p : Bytes) (s : DState) : run (opCreat p) s = run (doOp (.creat (absPath s p))) s := by
   unfold opCreat; rw [run_bind_ok (run_get s)]
 
@@ -88,7 +85,7 @@ theorem run_opChmod_file {p : Bytes} {s : DState} {b m0} (mode : Nat)
     run (opChmod p mode) s = (.ok ⟨⟩, { s with fs := s.fs.set (absPath s p) (.file b mode),
                                                  trace := s.trace ++ [.chmod (absPath s p) mode],
                                                  opCount := s.opCount + 1 }) := by
-  rw [run_opChmod, run_doOp_ok hf (apply_chmod_file mode h)]
+  rw [run_opChmod_clear (.of_none hf), run_doOp_ok hf (apply_chmod_file mode h)]
 
 /-! ## `m &&& writeMask` -/
 
@@ -190,7 +187,10 @@ theorem touches_opWrite {P} (p b : Bytes) (s : DState) (h : P (absPath s p)) : T
 
 theorem touches_opChmod {P} (p : Bytes) (m : Nat) (s : DState) (h : P (absPath s p)) :
     Touches P s (run (opChmod p m) s).2 := by
-  rw [run_opChmod]; exact touches_doOp _ s (by simpa [FsOp.paths] using h)
+  rw [run_opChmod]
+  split
+  · exact Touches.of_eq rfl rfl
+  · exact touches_doOp _ s (by simpa [FsOp.paths] using h)
 
 /-- `make_way_for` removes that name, or nothing -/
 theorem touches_makeWayFor {P} (p : Bytes) (s : DState) (h : P (absPath s p)) :
